@@ -678,15 +678,15 @@ def run(ctx):
         cases += [_bal_from_tlc(c) for c in data['balance']]
         cases += [_for_from_tlc(c) for c in data['formula']]
         ctx.coverage['tlc_cases'] = {k: len(v) for k, v in data.items()}
-        for _ in range(ctx.pick(2500, 40000)):
+        for _ in range(ctx.pick(2000, 40000)):
             cases.append(_random_print(rnd))
-        for _ in range(ctx.pick(2500, 40000)):
+        for _ in range(ctx.pick(2000, 40000)):
             cases.append(_random_hand(rnd))
-        for _ in range(ctx.pick(500, 6000)):
+        for _ in range(ctx.pick(400, 6000)):
             cases.append(_random_ring(rnd))
-        for _ in range(ctx.pick(3000, 50000)):
+        for _ in range(ctx.pick(2500, 50000)):
             cases.append(_random_balance(rnd))
-        for _ in range(ctx.pick(2000, 30000)):
+        for _ in range(ctx.pick(1500, 30000)):
             cases.append(_random_formula(rnd))
     results = core.pmap(_safe_execute, cases)
     traces = []
@@ -699,7 +699,13 @@ def run(ctx):
         for m in mism:
             clause = 'Raises' if 'raised' in m else _REPLAY_CLAUSE[case['kind']]
             ctx.violation(clause, case, tags=_tags(case), detail=m)
-        traces.append((tid, events))
+        # quick tier: every TLC case is replayed with equality (S->C); every second one is
+        # also judged by the trace specification (all of them in the thorough tier, and
+        # always when the replay disagreed)
+        if not (ctx.quick and case.get('src') == 'tlc' and tid % 2 == 1 and not mism):
+            traces.append((tid, events))
+        else:
+            traces.append((tid, []))
         if tid % 4999 == 0:
             ctx.sample({k: v for k, v in case.items() if k != 'expect'})
     ctx.coverage['cases_by_kind'] = kinds
@@ -708,7 +714,7 @@ def run(ctx):
         fails, stats = core.validate_traces('Trace_RxnString', 'Trace', traces, shards=core.NCPU - 1)
         if vac is not None:
             vac.result()
-    ctx.count('traces_validated_against_impl', len(traces))
+    ctx.count('traces_validated_against_impl', sum(1 for _, evs in traces if evs))
     ctx.coverage['trace_lines'] = stats['lines']
     by_case = {}
     for tid, idx, clause in fails:
